@@ -228,11 +228,47 @@ class CallsMixin:
             return self.comprehension(v.node.elt, v.node.generators, 'list')
         if isinstance(v, PyObj) and v.tag == 'emptylist':
             return v
+        if isinstance(v, PyObj) and v.tag == 'mapview':
+            return self.mapview_seq(v.map, v.what)
+        if isinstance(v, V) and isinstance(v.kind, K.Map):
+            return self.mapview_seq(v, 'keys')
         if isinstance(v.kind, K.Seq):
             return v
         if isinstance(v.kind, K.Tuple) and v.kind.items:
             return K.coerce(v, K.Seq(v.kind.items[0]))
         raise Unsupported('list(%r)' % (v.kind,))
+
+    def mapview_seq(self, m, what):
+        """list(dict view): the live entries of the insertion log, in order, as a fresh list."""
+        n = m.terms[1]
+
+        def elem(pos):
+            key = K.map_key_at(m, pos)
+            if what == 'keys':
+                return key
+            if what == 'values':
+                return K.map_get(m, key)
+            return K.vtuple([key, K.map_get(m, key)])
+        idx = self.p.fresh('mv!idx', z3.ArraySort(z3.IntSort(), z3.IntSort()))
+        inv = self.p.fresh('mv!inv', z3.ArraySort(z3.IntSort(), z3.IntSort()))
+        j, j2, i = self.p.fresh('mv!j', z3.IntSort()), self.p.fresh('mv!j2', z3.IntSort()), self.p.fresh('mv!i', z3.IntSort())
+        ej = elem(z3.Select(idx, j))
+        out = self.p.fresh_value(K.Seq(ej.kind), 'mv')
+        cnt = K.seq_len(out)
+        self.p.assume(cnt == m.terms[0])
+        self.p.assume(z3.And(0 <= cnt, cnt <= n))
+        self.p.assume(K.forall([j], z3.Implies(z3.And(0 <= j, j < cnt), z3.And(
+            0 <= z3.Select(idx, j), z3.Select(idx, j) < n, K.map_live(m, z3.Select(idx, j)),
+            *[z3.Select(a, j) == t for a, t in zip(out.terms[1:], ej.terms)])),
+            patterns=[z3.Select(idx, j), z3.Select(out.terms[1], j)]))
+        self.p.assume(K.forall([j, j2], z3.Implies(z3.And(0 <= j, j < j2, j2 < cnt),
+                                                   z3.Select(idx, j) < z3.Select(idx, j2)),
+                               patterns=[z3.MultiPattern(z3.Select(idx, j), z3.Select(idx, j2))]))
+        self.p.assume(K.forall([i], z3.Implies(z3.And(0 <= i, i < n, K.map_live(m, i)), z3.And(
+            0 <= z3.Select(inv, i), z3.Select(inv, i) < cnt, z3.Select(idx, z3.Select(inv, i)) == i)),
+            patterns=[z3.Select(inv, i), z3.Select(m.terms[2], i)]))
+        self.assume_valid(out)
+        return out
 
     def b_tuple(self, args, kwargs, node):
         if not args:
